@@ -1,14 +1,14 @@
 #!/bin/sh
 # Builds /verif/.venv: an overlay of /venv (which holds pyoak's dependencies) plus
-# crosshair-tool and z3-solver from the offline wheelhouse.  Idempotent.
+# crosshair-tool, z3-solver and cvc5 from the offline wheelhouse.  Idempotent.
 set -e
 cd "$(dirname "$0")"
 V=./.venv
-if [ ! -x "$V/bin/python" ] || ! "$V/bin/python" -c "import z3, crosshair, lark, mashumaro" >/dev/null 2>&1; then
+if [ ! -x "$V/bin/python" ] || ! "$V/bin/python" -c "import z3, crosshair, cvc5, lark, mashumaro" >/dev/null 2>&1; then
     rm -rf "$V"
     /venv/bin/python -m venv "$V"
     SP=$("$V/bin/python" -c "import sysconfig; print(sysconfig.get_paths()['purelib'])")
     printf "import site; site.addsitedir('/venv/lib/python3.12/site-packages')\n" > "$SP/zz_overlay.pth"
-    PIP_NO_INDEX=1 "$V/bin/python" -m pip install -q --no-index --find-links /opt/veriftools/wheels crosshair-tool z3-solver >/dev/null
+    PIP_NO_INDEX=1 "$V/bin/python" -m pip install -q --no-index --find-links /opt/veriftools/wheels crosshair-tool z3-solver cvc5 >/dev/null
 fi
-"$V/bin/python" -c "import z3, crosshair, lark, mashumaro; print('verif venv ok: z3', z3.get_version_string())"
+"$V/bin/python" -c "import z3, crosshair, cvc5, lark, mashumaro; print('verif venv ok: z3', z3.get_version_string(), 'cvc5', cvc5.__version__)"
